@@ -1,5 +1,5 @@
 """C05 - FRI opening proofs attest only true low-degree evaluations (structural clauses)."""
-from . import ob, tables_fri, flow, zips
+from . import ob, tables_fri, flow, zips, pins
 from .facts import walk, callee, parse_path
 
 
@@ -28,6 +28,9 @@ def run(F, ck, tier):
         E.check('R05.5', dict(id='schedule.bound:' + fq.split('::')[-1], fn=fq, crate=crate, kind='assert_or_guard',
                               src=['c:total_arities', 'f:rate_bits', 'f:cap_height'],
                               why='arity schedule never folds below the cap height'))
+    # R05.7 every length of the FRI proof is pinned for equality
+    ck.rule('R05.7', 'every Vec / cap / polynomial / Merkle-path length of FriProof is pinned by an equality guard that must hold, seen from verify_batch_fri_proof (the validator is shared with verify_fri_proof)')
+    pins.check(F, ck, 'R05.7', labels={'batch_fri'}, floor=8)
     # R05.6 unpinned zip partners
     ck.rule('R05.6', 'every zip in the FRI verifiers has both operand lengths pinned by an error-returning guard (or trusted)')
     n = 0
